@@ -131,6 +131,18 @@ func FormatSrc(s *Src) (out string, err error) {
 // `1...` : an integer literal directly followed by an ellipsis is scanned as a malformed number.
 var intBeforeEllipsis = regexp.MustCompile(`(^|[^0-9A-Za-z_.])[0-9][0-9A-Za-z_]*\.\.\.`)
 
+var msgPos = regexp.MustCompile(`^[^ ]*:\d+:\d+: `)
+var msgFound = regexp.MustCompile(`, found .*$| \(and \d+ more errors\)$`)
+
+// msgClass: the first parser message without position and without the offending token.
+func msgClass(m string) string {
+	m = firstLine(m)
+	m = msgPos.ReplaceAllString(m, "")
+	m = msgFound.ReplaceAllString(m, "")
+	m = msgFound.ReplaceAllString(m, "")
+	return strings.ReplaceAll(strings.TrimSpace(m), " ", "-")
+}
+
 func firstLine(s string) string {
 	if i := strings.IndexByte(s, '\n'); i >= 0 {
 		s = s[:i]
@@ -183,6 +195,8 @@ func CheckC19(s *Src, o *vh.Out) string {
 			key += ":int-literal-before-ellipsis"
 		} else if leadingEmptyTopLevel(Dump(f1)) {
 			key = "empty-statement-removed:leading-top-level"
+		} else {
+			key += ":" + msgClass(err.Error())
 		}
 		o.Oracle(key, s.Line, firstLine(err.Error()))
 		return "REPARSE-FAILS " + firstLine(err.Error())
@@ -221,12 +235,17 @@ func CheckC20(s *Src, o *vh.Out) string {
 			key += ":int-literal-before-ellipsis"
 		} else if leadingEmptyTopLevel(Dump(f0)) {
 			key += ":leading-top-level-empty-statement"
+		} else {
+			key += ":" + msgClass(err.Error())
 		}
 		o.Oracle(key, s.Line, firstLine(err.Error()))
 		return "FORMAT2-FAILS " + firstLine(err.Error())
 	}
 	if out2 != out {
 		key, detail := idemKey(out, out2, hasExplicitEmptyStmt(f0, s.Text))
+		if (key == "second-pass-differs:blank-lines" || key == "second-pass-differs:layout") && len(f0.Comments) > 0 {
+			key += "-with-comments"
+		}
 		o.Oracle(key, s.Line, detail)
 		o.Count("not_idempotent")
 		return "NOT-IDEMPOTENT " + key
@@ -255,6 +274,45 @@ func squeeze0(s string) string {
 	}, s)
 }
 
+func dropLineBreakSemis(s string) string { return strings.ReplaceAll(s, ";", "") }
+
+// sameTokens: the two texts scan (comments skipped) to the same tokens; explicit and automatic
+// semicolons count alike and the optional comma before a closing bracket is ignored.
+func sameTokens(a, b string) bool {
+	ta, ea := Scan(a)
+	tb, eb := Scan(b)
+	if ea != 0 || eb != 0 {
+		return false
+	}
+	norm := func(ts []Tok) []string {
+		var l []string
+		for i, t := range ts {
+			if t.Tok == token.COMMA && i+1 < len(ts) && (ts[i+1].Tok == token.RPAREN || ts[i+1].Tok == token.RBRACK || ts[i+1].Tok == token.RBRACE) {
+				continue
+			}
+			if t.Tok == token.SEMICOLON {
+				if i+1 < len(ts) && (ts[i+1].Tok == token.RPAREN || ts[i+1].Tok == token.RBRACE) {
+					continue
+				}
+				l = append(l, ";")
+				continue
+			}
+			l = append(l, t.Tok.String()+"\x00"+t.Lit)
+		}
+		return l
+	}
+	na, nb := norm(ta), norm(tb)
+	if len(na) != len(nb) {
+		return false
+	}
+	for i := range na {
+		if na[i] != nb[i] {
+			return false
+		}
+	}
+	return true
+}
+
 func nonEmptyLines(s string) []string {
 	var l []string
 	for _, x := range strings.Split(s, "\n") {
@@ -279,7 +337,20 @@ func idemKey(a, b string, srcHasEmptyStmt bool) (string, string) {
 		}
 	}
 	if squeeze(a) != squeeze(b) {
+		if sameTokens(a, b) {
+			if squeeze(dropLineBreakSemis(a)) != squeeze(dropLineBreakSemis(b)) || strings.Contains(a, "/*") {
+				// same tokens; a /*…*/ comment sits at another token boundary (e.g. before instead
+				// of after a comma), or a `;` became a line break
+				if strings.Contains(a, "/*") {
+					return "second-pass-differs:block-comment-position", detail
+				}
+			}
+			return "second-pass-differs:line-breaks", detail
+		}
 		return "second-pass-differs:text", detail
+	}
+	if strings.Contains(first, "*/") && !strings.Contains(first, "/*") {
+		return "second-pass-differs:multiline-comment-indent", detail
 	}
 	na, nb := nonEmptyLines(a), nonEmptyLines(b)
 	if strings.Join(na, "\n") == strings.Join(nb, "\n") {
